@@ -453,6 +453,9 @@ func (gp *GenProgram) lemmaAxioms(pr *PRule) string {
 	if !gp.lemmasDone {
 		gp.lemmasDone = true
 		gp.LemmaFailed = gp.Spec.ProveLemmas(gp.Unit.preludeText())
+		if os.Getenv("GOVC_DEBUG") != "" {
+			fmt.Println("lemmas not proved:", gp.LemmaFailed)
+		}
 	}
 	return gp.Spec.LemmaAxioms("", 0) + gp.Spec.starAxioms(pr, 0)
 }
@@ -703,6 +706,12 @@ func (gp *GenProgram) verifyClosures(r *Run, only map[string]bool) {
 			add(pr.Body)
 		}
 		gp.runClosure(r, key, fc, c, fname, extra+gp.lemmaAxioms(pr))
+	}
+	for _, le := range gp.Spec.LemmaErrors {
+		// a malformed lemma query is an engine fault, never a silent "lemma not available"
+		r.Obls = append(r.Obls, &Obligation{Name: u.Name + "#unit.lemmaquery", Kind: "unit", Unit: u.Name, Goal: "false", PC: "true",
+			Detail: "solver error in a spec-level lemma query: " + le, Result: SolverResult{Verdict: VError, Output: le}})
+		break
 	}
 	for _, mc := range gp.MemoCollision {
 		r.Obls = append(r.Obls, &Obligation{Name: u.Name + "#unit.memoids", Kind: "unit", Unit: u.Name, Goal: "false", PC: "true", Props: "C06",
